@@ -21,7 +21,9 @@ fn main() {
     // --dense: gate counts 1, 4, 7, .. 121 under the settings with few queries (degrees 2^8..2^12), so that the
     // recorded degrees cross every boundary of the blinding fixed point (build only)
     let dense = args.iter().any(|a| a == "--dense");
-    let sizes: Vec<usize> = if dense { (0..41).map(|k| 60 * k).collect() } else { vec![1, 40, 300, 2000] };
+    // --big: the standard zero-knowledge configuration at the 2^17 / 2^18 boundary (build only)
+    let big = args.iter().any(|a| a == "--big");
+    let sizes: Vec<usize> = if big { vec![20 * 117_000, 20 * 118_100, 20 * 119_500, 20 * 120_400] } else if dense { (0..41).map(|k| 60 * k).collect() } else { vec![1, 40, 300, 2000] };
     let strategies: Vec<(serde_json::Value, FriReductionStrategy)> = vec![
         (json!({"kind": "Const", "a": 4, "f": 5}), FriReductionStrategy::ConstantArityBits(4, 5)),
         (json!({"kind": "Const", "a": 3, "f": 2}), FriReductionStrategy::ConstantArityBits(3, 2)),
@@ -32,6 +34,9 @@ fn main() {
     for (sj, st) in strategies.iter() {
         for &(rb, cap, q) in &[(3usize, 4usize, 28usize), (3, 4, 2), (3, 0, 7), (3, 0, 1), (4, 4, 2), (3, 4, 1)] {
             if dense && q > 2 {
+                continue;
+            }
+            if big && !(q == 28 && sj["kind"] == "Const" && sj["a"] == 4 && sj["f"] == 5) {
                 continue;
             }
             for &mults in &sizes {
@@ -54,7 +59,7 @@ fn main() {
                 let data = b.build::<C>();
                 let fp = &data.common.fri_params;
                 let mut accepted = serde_json::Value::Null;
-                if prove && !dense && data.common.degree_bits() <= 14 {
+                if prove && !dense && !big && data.common.degree_bits() <= 14 {
                     let mut pw = PartialWitness::new();
                     pw.set_target(x, F::from_canonical_u64(3));
                     let ok = data.prove(pw).and_then(|p| data.verify(p)).is_ok();
